@@ -56,12 +56,23 @@ MultiApp ==
   \cup {<<H2(A("a"), A("b")), "|>", A("g")>>, <<H2(A("a"), <<"paren", <<A("x"), "|>", A("f")>>>>), "|>", A("g")>>}
   \cup {<<H2(<<"app", "f", A("a")>>, A("b")), op, A("c")>> : op \in {"+", "<"}}
 
+\* 6. tuples and slice literals: every component is a whole chain of its own; as operands of = / <>, as arguments
+Ch(x, op, y) == <<A(x), op, A(y)>>
+Brackets ==
+       {<<<<"tup", <<Ch("a", op1, "b"), Ch("c", op2, "d")>>>>>> : op1 \in NonPipeOps, op2 \in NonPipeOps}
+  \cup {<<<<"sl", <<Ch("a", op1, "b"), One("c"), Ch("d", op2, "e")>>>>>> : op1 \in {"+", "*", "-"}, op2 \in {"+", "*", "/"}}
+  \cup {<<<<"tup", <<Ch("a", op1, "b"), One("c")>>>>, eq, <<"tup", <<One("d"), Ch("e", op2, "x")>>>>>> : op1 \in {"+", "*"}, op2 \in {"-", "*"}, eq \in {"=", "<>"}}
+  \cup {<<<<"sl", <<Ch("a", op1, "b")>>>>, eq, <<"sl", <<Ch("c", op2, "d")>>>>, "&&", A("p")>> : op1 \in {"+", "*"}, op2 \in {"-", "/"}, eq \in {"=", "<>"}}
+  \cup {<<<<"tup", <<<<A("a"), "|>", A("f")>>, <<A("b"), op1, A("c"), "|>", A("g")>>>>>>>> : op1 \in {"+", "*"}}
+  \cup {<<<<"tup", <<<<<<"paren", Ch("a", op1, "b")>>, op2, A("c")>>, One("d")>>>>>> : op1 \in {"+", "<"}, op2 \in {"*", "&&"}}
+
 Row(c, kind) == [toks |-> c, tree |-> Declarative(c), mtree |-> Machine(c), kind |-> kind]
 Rows ==      {Row(c, "plain") : c \in Plain}
         \cup {Row(c, "operand") : c \in WithOperands}
         \cup {Row(c, "pipe") : c \in PipeChains}
         \cup {Row(c, "swallow") : c \in Swallow}
         \cup {Row(c, "multiapp") : c \in MultiApp}
+        \cup {Row(c, "brackets") : c \in Brackets}
 
 \* R1: the parser's loop computes the grouping of the published table, on every enumerated chain
 ASSUME \A r \in Rows : r.tree = r.mtree
